@@ -36,17 +36,24 @@ def idp_side(sign_response: bool, sign_assertion: bool, encrypt: bool, self_cont
         exc = e
     text = None if out is None else "%s" % out
     ok = True
-    leaked = False
+    attrs_clear = False
+    nid_clear = False
     if text is not None:
-        leaked = ("SENTINEL-GIVEN" in text) | ("SENTINEL-SURNAME" in text) | ("SENTINEL-NAMEID" in text)
-    must_hide = encrypt & sp_has_cert
-    if must_hide:
-        # asked to encrypt for an SP with an encryption certificate: either an error, or nothing in clear
-        ok = (text is None) or ((not leaked) & (len(IDP.backend.encrypted_for) >= 1) & ("CipherValue" in text))
+        attrs_clear = ("SENTINEL-GIVEN" in text) | ("SENTINEL-SURNAME" in text)
+        nid_clear = "SENTINEL-NAMEID" in text
+    if encrypt & sp_has_cert:
+        # asked to encrypt the assertion for an SP with an encryption certificate: either an error, or nothing in clear
+        ok = (text is None) or ((not attrs_clear) & (not nid_clear) & (len(IDP.backend.encrypted_for) >= 1) & ("CipherValue" in text))
+        if tool_fails:
+            ok = ok & (text is None)
+    elif advice & sp_has_cert:
+        # PEFIM: the attributes travel in an advice assertion that was to be encrypted; the subject
+        # identifier stays in the (unencrypted) outer assertion
+        ok = (text is None) or ((not attrs_clear) & (len(IDP.backend.encrypted_for) >= 1))
         if tool_fails:
             ok = ok & (text is None)
     elif not encrypt and not advice:
-        ok = (text is not None) & leaked          # liveness of the harness: plain responses carry the identity
+        ok = (text is not None) & attrs_clear & nid_clear          # liveness of the harness: plain responses carry the identity
     return ok, (text is not None) | tool_fails | (exc is not None), "text=%s exc=%r enc_for=%d" % (None if text is None else len(text), exc, len(IDP.backend.encrypted_for))
 
 
